@@ -63,6 +63,12 @@ fn kv_n(kv: &KV, k: &str) -> usize {
 fn kv_q(kv: &KV, k: &str) -> Q {
     Q::from_val(parse_val(kv_str(kv, k)))
 }
+fn kv_oq(kv: &KV, k: &str) -> Option<Q> {
+    match kv_str(kv, k) {
+        "none" => None,
+        v => Some(Q::from_val(parse_val(v))),
+    }
+}
 fn kv_qs(kv: &KV, k: &str) -> Vec<Q> {
     parse_vals(kv_str(kv, k)).into_iter().map(Q::from_val).collect()
 }
@@ -785,6 +791,25 @@ pub fn inject(kind: &str, kv: &KV) -> Box<dyn Inst> {
             let cfg = SchmittConfig { thresholds: [kv_q(kv, "low"), kv_q(kv, "high")], outputs: out2(kv) };
             let st = signalo_filters::classify::schmitt::State { on: kv_str(kv, "on") == "true" };
             Box::new(Schmitt::<Q, Q>::from_guts((cfg, st)))
+        }
+        // arbitrary states of the recursive filters (the recurrences are one-step statements about ANY state)
+        "kalman" => {
+            let cfg = KalmanConfig { r: kv_q(kv, "r"), q: kv_q(kv, "q"), a: kv_q(kv, "a"), b: kv_q(kv, "b"), c: kv_q(kv, "c") };
+            let st = signalo_filters::observe::kalman::State { cov: kv_q(kv, "cov"), value: kv_oq(kv, "value") };
+            Box::new(Kalman::<Q>::from_guts((cfg, st)))
+        }
+        "alphabeta" => {
+            let cfg = AbConfig { alpha: kv_q(kv, "alpha"), beta: kv_q(kv, "beta") };
+            let st = signalo_filters::observe::alpha_beta::State { velocity: kv_q(kv, "velocity"), value: kv_oq(kv, "value") };
+            Box::new(AlphaBeta::<Q>::from_guts((cfg, st)))
+        }
+        "ema" => {
+            let st = signalo_filters::mean::exp::mean::State { mean: kv_oq(kv, "mean") };
+            Box::new(Ema::<Q>::from_guts((EmaConfig { inverse_width: kv_q(kv, "w") }, st)))
+        }
+        "integrate" => Box::new(Integrate::<Q>::from_guts(signalo_filters::integrate::State { value: kv_q(kv, "value") })),
+        "differentiate" => {
+            Box::new(Differentiate::<Q>::from_guts(signalo_filters::differentiate::State { value: kv_oq(kv, "value") }))
         }
         // a tap ring filled by hand to any level (reachable only through the public state + `from_guts`): the filter
         // tops it up with the current sample before it convolves / delays
